@@ -122,6 +122,10 @@ func c06Duplication(c *Ctx, f *Family, r *rand.Rand, modular bool) {
 		c.Violate("shared-state", detail(), "the copy shares mutable state with the original: %s", sh)
 		return
 	}
+	if why := lookupOwn(dup); why != "" {
+		c.Violate("shared-state", detail(), "the copy's node look-up does not answer with the copy's own nodes: %s", why)
+		return
+	}
 	if len(before.Modules) > 0 {
 		c.Count("duplications.modular", 1)
 	}
@@ -191,6 +195,15 @@ func c06Duplication(c *Ctx, f *Family, r *rand.Rand, modular bool) {
 			c.Violate("not-independent", dd, "mutating the %s by %s changed the other genome: %s", side, op, d)
 			return
 		}
+		for _, side := range []*genetics.Genome{mutated, other} {
+			if why := lookupOwn(side); why != "" {
+				dd := detail()
+				dd["mutated_side"] = side == mutated
+				dd["mutators"] = applied
+				c.Violate("not-independent", dd, "after mutating a copy by %s the node look-up of one of the two genomes is out of step with its nodes: %s", op, why)
+				return
+			}
+		}
 		if siblingBefore != nil {
 			if d := diffGenomes(siblingBefore, snapGenome(sibling)); d != "" {
 				dd := detail()
@@ -253,4 +266,17 @@ func c06Spawn(c *Ctx, f *Family, r *rand.Rand) {
 		c.Count("spawned.from_genome_with_disabled", 1)
 	}
 	_ = fmt.Sprint
+}
+
+// lookupOwn checks that looking a node up by id answers with the genome's own node objects and knows no others
+func lookupOwn(g *genetics.Genome) string {
+	for _, n := range g.Nodes {
+		if g.NodeWithId(n.Id) != n {
+			return fmt.Sprintf("NodeWithId(%d) is not the genome's node", n.Id)
+		}
+	}
+	if g.VerifNodeMapSize() != len(g.Nodes) {
+		return fmt.Sprintf("the look-up knows %d nodes, the genome has %d", g.VerifNodeMapSize(), len(g.Nodes))
+	}
+	return ""
 }
